@@ -987,6 +987,7 @@ pub fn step(op: Op) -> StepOutcome {
     c.episodes.set(0);
     c.fin_mark.set(c.fin_events.get());
     c.drop_mark.set(c.drop_events.get());
+    c.op_resurrections.set(0);
     for o in c.model.borrow_mut().objs.iter_mut() {
         o.upgraded_in_dtor = false;
     }
